@@ -25,9 +25,10 @@ func init() {
 		ID: "C11",
 		Rule: "histories generated from a simulated edit timeline (changesets at increasing times with gaps 0s/1s/seconds/beyond threshold; node modify, multi-edit in one changeset, delete, undelete; parent versions with changing, repeated children; parent delete/undelete) in the commit-time regime (70%) and the timestamp regime (30%), thresholds {0,1,5,1800}, both ignore options, child filters, ways and relations (node and relation members); " +
 			"non-trivial = at least 2 parent versions or at least one update produced; distinct = distinct op line; each case annotated 3 times on fresh copies",
-		Gen:   func(r *Rng, tier string, emit func(string)) { c11Gen(r, tier, emit, false) },
-		Exec:  func(op string) (string, *Violation) { return c11Exec(op, 3) },
-		Class: c11Class,
+		Gen:       func(r *Rng, tier string, emit func(string)) { c11Gen(r, tier, emit, false) },
+		Exec:      func(op string) (string, *Violation) { return c11Exec(op, 3) },
+		Class:     c11Class,
+		ModelSkip: func(op string) bool { return strings.HasPrefix(op, "annd ") },
 		Extra: func() map[string]interface{} {
 			return map[string]interface{}{"time_travel_comparisons_commit_regime": c11TT[0], "time_travel_comparisons_timestamp_regime": c11TT[1],
 				"time_travel_mixed_regime_cases_skipped": c11TT[2]}
@@ -37,9 +38,10 @@ func init() {
 		ID: "C12",
 		Rule: "as C11 plus a family with many versions of each child sharing one second and parents with more than a dozen updates; every case annotated 20 times (100 in the thorough tier) on fresh deep copies and the serialised results compared; " +
 			"non-trivial = some parent has two updates with equal index and timestamp, or more than 12 updates; distinct = distinct op line",
-		Gen:   func(r *Rng, tier string, emit func(string)) { c11Gen(r, tier, emit, true) },
-		Exec:  func(op string) (string, *Violation) { return c11Exec(op, c12Repeats) },
-		Class: c12Class,
+		Gen:       func(r *Rng, tier string, emit func(string)) { c11Gen(r, tier, emit, true) },
+		Exec:      func(op string) (string, *Violation) { return c11Exec(op, c12Repeats) },
+		Class:     c12Class,
+		ModelSkip: func(op string) bool { return strings.HasPrefix(op, "annd ") },
 	})
 }
 
@@ -74,6 +76,7 @@ type c11Parent struct {
 }
 
 type c11Case struct {
+	dup    bool // a history holds the same version number twice: only "a function of its input" is claimed
 	kind   string
 	thr    int64
 	ii, im bool
@@ -93,10 +96,10 @@ func c11ParseOpt(s string) (int64, bool) {
 
 func c11Parse(op string) (*c11Case, bool) {
 	f := fields(op)
-	if len(f) < 7 || f[0] != "ann" {
+	if len(f) < 7 || (f[0] != "ann" && f[0] != "annd") {
 		return nil, false
 	}
-	c := &c11Case{kind: f[1], hs: map[int64][]c11Child{}}
+	c := &c11Case{kind: f[1], hs: map[int64][]c11Child{}, dup: f[0] == "annd"}
 	c.thr, _ = strconv.ParseInt(f[2], 10, 64)
 	c.ii, c.im = f[3] == "1", f[4] == "1"
 	c.fmod, _ = strconv.ParseInt(f[5], 10, 64)
@@ -362,6 +365,9 @@ func c11Exec(op string, repeats int) (string, *Violation) {
 			}
 			return first.rendered, &Violation{Signature: sig, Text: fmt.Sprintf("run 1 and run %d on equal input differ:\n%s\n%s", i+1, first.rendered, again.rendered)}
 		}
+	}
+	if c.dup {
+		return "dup", nil
 	}
 	if first.err != nil {
 		// documented typed errors
@@ -957,6 +963,7 @@ func c11GenOne(r *Rng, sameSecondFamily bool) string {
 		}
 		return 0
 	}
+	dupVersions := false
 	fmt.Fprintf(&b, "ann %s %d %d %d %d P", kind, thr, b01(ii), b01(im), fmod)
 	opt := func(v int64, has bool) string {
 		if !has {
@@ -985,6 +992,13 @@ func c11GenOne(r *Rng, sameSecondFamily bool) string {
 		if r.Chance(2) {
 			l = nil
 		}
+		// the same version number twice, with different content (C12: still a function of the input)
+		if sameSecondFamily && len(l) > 0 && r.Chance(25) {
+			d := l[len(l)-1]
+			d.lat, d.lon = d.lat+1, d.lon+2
+			l = append(append([]c11Child{}, l...), d)
+			dupVersions = true
+		}
 		// histories arrive in any order
 		if r.Chance(40) {
 			p := r.Perm(len(l))
@@ -999,6 +1013,9 @@ func c11GenOne(r *Rng, sameSecondFamily bool) string {
 			vs = append(vs, fmt.Sprintf("%d:%d:%d:%d:%s:%d:%d", ch.ver, ch.cs, b01(ch.vis), ch.ts, opt(ch.commit, ch.hasCommit), ch.lat, ch.lon))
 		}
 		fmt.Fprintf(&b, " %d=%s", fid, strings.Join(vs, ";"))
+	}
+	if dupVersions {
+		return "annd" + b.String()[3:]
 	}
 	return b.String()
 }
